@@ -22,7 +22,7 @@
    messages, which is all a UDPSession ever sends). *)
 From Coq Require Import ZArith List Bool Lia.
 From KV.Base Require Import Consts Word WordLemmas.
-From KV.Kcp Require Import Kcp Step Net InvAll NetAll NetExample ProgressBase Progress.
+From KV.Kcp Require Import Kcp Step Net InvAll NetAll NetExample Live ProgressBase Progress.
 Import ListNotations.
 Local Open Scope Z_scope.
 
@@ -77,6 +77,68 @@ Theorem c02b_queue_progress :
     exists s', sys2_step s (EA (OFlush true t)) = Some s' /\ reach2 s' /\ snd_buf (kA s') <> [].
 Proof. exact c02_queue_progress. Qed.
 Print Assumptions c02b_queue_progress.
+
+(* 6. a closed window re-opens (C03's probe round, on the same two-way system).  probe_round s t:
+   A flushes twice (at t, and when its probe timer is due: the first zero-window flush may only
+   arm the timer), everything A emitted reaches B in order, B reads until Recv = -1 and flushes,
+   everything B emitted since reaches A in order.  All WASK / WINS / ACK datagrams sent before
+   the round may have been lost: that is `reach2 s`.  (B's reader is part of the round: without
+   it a retransmitted PUSH delivered together with the WASK can fill a small window again, and
+   the WINS would announce 0.)  probe_inv is preserved by every call (Live.probe_backoff). *)
+Theorem c02b_probe_round :
+  forall s t, reach2 s -> no_wrap (numbered_of s) -> probe_inv (kA s) -> is_u32 t ->
+    rmt_wnd (kA s) = 0 -> b8 s ->
+    exists s', probe_round s t = Some s' /\ reach2 s' /\ 0 < rmt_wnd (kA s').
+Proof. exact c02_probe_round. Qed.
+Print Assumptions c02b_probe_round.
+
+(* 7. the rounds ARE runs: concrete finite lists of admissible events, none of them a Send of A *)
+Theorem c02b_round_is_run :
+  forall s t s', reach2 s -> is_u32 t -> healed_round s t = Some s' ->
+    exists evs, sys2_run s evs s' /\ Forall pg_quiet evs.
+Proof. exact c02_round_is_run. Qed.
+Print Assumptions c02b_round_is_run.
+
+Theorem c02b_probe_is_run :
+  forall s t s', reach2 s -> is_u32 t -> probe_round s t = Some s' ->
+    exists evs, sys2_run s evs s' /\ Forall pg_quiet evs.
+Proof. exact c02_probe_is_run. Qed.
+Print Assumptions c02b_probe_is_run.
+
+(* 8. the backlog drains.  drain_round = (probe round if rmt_wnd = 0); two flushes of A (the
+   first makes cwnd >= 1, the second numbers queued data when nothing is outstanding); the healed
+   round at a clock value at which the head of snd_buf is due.  Every draining round strictly
+   decreases the number of accepted segments not yet cumulatively acknowledged (unacked), so
+   from EVERY reachable state at most `unacked s` rounds of a healed network leave WaitSnd = 0.
+   Premises on the start state only: no wrap and B8 for everything accepted so far, and
+   probe_inv (an invariant of every call).  With both congestion-control settings (nocwnd). *)
+Theorem c02b_drains :
+  forall s, reach2 s -> no_wrap_all s -> b8_all s -> probe_inv (kA s) ->
+    exists n s', Z.of_nat n <= unacked s /\ drain_rounds n s = Some s' /\ reach2 s' /\
+                 waitsnd (kA s') = 0.
+Proof. exact c02_drains. Qed.
+Print Assumptions c02b_drains.
+
+(* 9. ... and everything accepted is delivered.  When nothing waits at A and B's reader has read
+   all it can (PeekSize < 0), B's delivery queue is empty and its reader has been given exactly
+   what A's Send accepted (message mode: the same messages; stream mode: the same bytes). *)
+Theorem c02b_delivered :
+  forall s, reach2 s -> no_wrap (numbered_of s) -> waitsnd (kA s) = 0 -> peeksize (kB s) < 0 -> b8 s ->
+    rcv_queue (kB s) = [] /\
+    (stream (kA s) = 0 -> rg_delivered (gB (s1 s)) = sg_accepted (gA (s1 s))) /\
+    (stream (kA s) <> 0 -> concat (rg_delivered (gB (s1 s))) = concat (sg_accepted (gA (s1 s)))).
+Proof. exact c02_delivered. Qed.
+Print Assumptions c02b_delivered.
+
+(* the draining rounds, then B's reader catches up: WaitSnd = 0 and delivered = accepted *)
+Theorem c02b_drains_delivered :
+  forall s, reach2 s -> no_wrap_all s -> b8_all s -> probe_inv (kA s) ->
+    exists n s' s'', Z.of_nat n <= unacked s /\ drain_rounds n s = Some s' /\ b_drain s' = Some s'' /\
+      reach2 s'' /\ waitsnd (kA s'') = 0 /\ rcv_queue (kB s'') = [] /\
+      (stream (kA s'') = 0 -> rg_delivered (gB (s1 s'')) = sg_accepted (gA (s1 s''))) /\
+      (stream (kA s'') <> 0 -> concat (rg_delivered (gB (s1 s''))) = concat (sg_accepted (gA (s1 s'')))).
+Proof. exact c02_drains_delivered. Qed.
+Print Assumptions c02b_drains_delivered.
 
 (* ---- non-vacuity: a concrete reachable state with outstanding data ---- *)
 (* NetExample's endpoints; A writes three bytes, its first transmission (at 1000) is lost.
